@@ -5,6 +5,7 @@ import (
 	"crypto/sha256"
 	"fmt"
 	"math/big"
+	"sort"
 	"strings"
 	"sync"
 	"sync/atomic"
@@ -29,6 +30,7 @@ type poolEntry struct {
 	s          []byte
 	witness    []byte // reference delinearisation bytes: transcript rng (no rekey, zero entropy), 16 bytes
 	pkB, rB    []byte
+	sigB       []byte // reference signature bytes (pool encodings are derived from these, never from the tree under test)
 }
 
 const (
@@ -89,7 +91,7 @@ func (e *env) buildPool(nValid int) (pool []*poolEntry, valids []*poolEntry, pro
 			problems = append(problems, [2]string{"KeyPair.Sign/bytes", "pool signature differs from the reference: " + name})
 			sig, _ = sr25519.NewSignatureFromBytes(want.Sig)
 		}
-		p := &poolEntry{name: name, pk: k.pk, st: st, sig: sig, wellFormed: true, valid: true}
+		p := &poolEntry{name: name, pk: k.pk, st: st, sig: sig, wellFormed: true, valid: true, sigB: want.Sig}
 		e.fillRef(p, k.ver, rt, want.Sig)
 		return p
 	}
@@ -101,14 +103,14 @@ func (e *env) buildPool(nValid int) (pool []*poolEntry, valids []*poolEntry, pro
 	// wrong message: v1's key and signature on another transcript
 	wm := &poolEntry{name: "wrong message", pk: k1.pk, sig: v1.sig, wellFormed: true}
 	wm.st = e.srcs[0].mk(sr25519.NewSigningContext([]byte("batch ctx")), []byte("message two"))
-	e.fillRef(wm, k1.ver, refTranscript(e.srcs[0], []byte("batch ctx"), []byte("message two")), mustMarshal(v1.sig))
+	e.fillRef(wm, k1.ver, refTranscript(e.srcs[0], []byte("batch ctx"), []byte("message two")), v1.sigB)
 	pool[eWrongMessage] = wm
 	// wrong key
 	wk := &poolEntry{name: "wrong key", pk: k2.pk, sig: v1.sig, st: v1.st, wellFormed: true}
-	e.fillRef(wk, k2.ver, refTranscript(e.srcs[0], []byte("batch ctx"), []byte("message one")), mustMarshal(v1.sig))
+	e.fillRef(wk, k2.ver, refTranscript(e.srcs[0], []byte("batch ctx"), []byte("message one")), v1.sigB)
 	pool[eWrongKey] = wk
 	// mutated signature scalar (still canonical and marked)
-	sb := mustMarshal(v1.sig)
+	sb := v1.sigB
 	ms := append([]byte{}, sb...)
 	ms[32] ^= 1
 	if _, _, ok := refsr.DecodeSignature(ms); !ok {
@@ -137,7 +139,7 @@ func (e *env) buildPool(nValid int) (pool []*poolEntry, valids []*poolEntry, pro
 	// two errors cancel in an unweighted sum - only independent delinearisation coefficients reject the pair
 	// (added after the seeded change C12-2, a transcript RNG that never advances, passed every batch history)
 	{
-		sb2 := mustMarshal(v2.sig)
+		sb2 := v2.sigB
 		cs := append([]byte{}, sb2...)
 		sv := append([]byte{}, cs[32:]...)
 		sv[31] &= 0x7f
@@ -206,29 +208,41 @@ type batchAcct struct{ states, transitions, traces int64 }
 
 // checkState compares every field of the real verifier with the model (through the hook) and returns a digest.
 func checkState(bv *sr25519.BatchVerifier, m *batchModel, fail func(key, msg string)) [32]byte {
-	ents, anyInv := sr25519.VerifBatchState(bv)
+	ents, anyInv, missing, ok := sr25519.VerifBatchState(bv)
 	h := sha256.New()
+	if !ok {
+		noteBatchHook(missing)
+		return [32]byte{}
+	}
+	miss := map[string]bool{}
+	for _, n := range missing {
+		miss[n] = true
+	}
+	if len(missing) > 0 {
+		noteBatchHook(missing)
+	}
 	if len(ents) != len(m.entries) {
 		fail("BatchVerifier/state", fmt.Sprintf("%d entries in the real object, %d in the model", len(ents), len(m.entries)))
 		return [32]byte{}
 	}
-	if anyInv != m.anyInvalid() {
+	if !miss["anyInvalid"] && anyInv != m.anyInvalid() {
 		fail("BatchVerifier/state", fmt.Sprintf("anyInvalid=%v, model %v", anyInv, m.anyInvalid()))
 	}
 	fmt.Fprint(h, anyInv)
 	for i, en := range ents {
 		p := m.entries[i]
-		if en.CanBeValid != p.wellFormed {
+		if !miss["canBeValid"] && en.CanBeValid != p.wellFormed {
 			fail("BatchVerifier/state", fmt.Sprintf("entry %d (%s): canBeValid=%v, model %v", i, p.name, en.CanBeValid, p.wellFormed))
 		}
 		if en.CanBeValid && p.wellFormed {
-			if !bytes.Equal(en.Hram[:], p.hram) {
+			eq := func(name string, got, want []byte) bool { return miss[name] || bytes.Equal(got, want) }
+			if !eq("hram", en.Hram[:], p.hram) {
 				fail("BatchVerifier/entry-challenge", fmt.Sprintf("entry %d (%s): challenge %x, reference %x", i, p.name, en.Hram, p.hram))
 			}
-			if !bytes.Equal(en.S[:], p.s) || !bytes.Equal(en.R[:], p.rB) || !bytes.Equal(en.A[:], p.pkB) || !bytes.Equal(en.WitnessA[:], p.pkB) || !bytes.Equal(en.WitnessR[:], p.rB) {
+			if !eq("S", en.S[:], p.s) || !eq("R", en.R[:], p.rB) || !eq("A", en.A[:], p.pkB) || !eq("witnessA", en.WitnessA[:], p.pkB) || !eq("witnessR", en.WitnessR[:], p.rB) {
 				fail("BatchVerifier/entry-fields", fmt.Sprintf("entry %d (%s): stored R/A/S differ from the added triple", i, p.name))
 			}
-			if !bytes.Equal(en.WitnessBytes[:], p.witness) {
+			if !eq("witnessBytes", en.WitnessBytes[:], p.witness) {
 				fail("BatchVerifier/entry-delinearisation", fmt.Sprintf("entry %d (%s): transcript witness bytes %x, reference %x", i, p.name, en.WitnessBytes, p.witness))
 			}
 		}
@@ -239,8 +253,33 @@ func checkState(bv *sr25519.BatchVerifier, m *batchModel, fail func(key, msg str
 	return d
 }
 
+// noteBatchHook remembers which batch-verifier fields can no longer be read from this tree; the run is
+// then reported as capped (never as broken): the public results of Verify / VerifyBatchOnly are still compared.
+var (
+	batchHookMu      sync.Mutex
+	batchHookMissing = map[string]bool{}
+)
+
+func noteBatchHook(missing []string) {
+	batchHookMu.Lock()
+	for _, n := range missing {
+		batchHookMissing[n] = true
+	}
+	batchHookMu.Unlock()
+}
+
 func (e *env) batchChecks() {
 	c := e.c
+	defer func() {
+		if len(batchHookMissing) > 0 {
+			var n []string
+			for k := range batchHookMissing {
+				n = append(n, k)
+			}
+			sort.Strings(n)
+			c.Cap("batch-verifier fields that can no longer be read from this tree (comparison skipped): " + strings.Join(n, ","))
+		}
+	}()
 	pool, valids, problems := e.buildPool(8)
 	c.Seq("batch-pool", 1, func(w *mc.W, i int) {
 		counted := false
@@ -389,7 +428,7 @@ func (e *env) applyBatchOp(bv *sr25519.BatchVerifier, m *batchModel, pool []*poo
 		if o == bVerifyGen {
 			rd = rdGeneric
 		}
-		before, _ := sr25519.VerifBatchState(bv)
+		before, _, _, _ := sr25519.VerifBatchState(bv)
 		all, each := bv.Verify(mkReader(rd))
 		wantAll, wantEach := m.verdicts()
 		if all != wantAll {
@@ -405,7 +444,7 @@ func (e *env) applyBatchOp(bv *sr25519.BatchVerifier, m *batchModel, pool []*poo
 				}
 			}
 		}
-		after, _ := sr25519.VerifBatchState(bv)
+		after, _, _, _ := sr25519.VerifBatchState(bv)
 		if fmt.Sprint(before) != fmt.Sprint(after) {
 			fail("BatchVerifier.Verify/mutates", "Verify modified the batch")
 		}
